@@ -48,14 +48,14 @@ from simkit.world import InvalidScenario, result  # noqa: E402
 
 PROPERTY = "C03"
 COHORT = 8            # models judged per quick-tier scenario
-RUNS = {"quick": 40, "thorough": 60_000}
+RUNS = {"quick": 36, "thorough": 60_000}
 WALL = {"quick": 60, "thorough": 1500}
-BATCH = {"quick": 8, "thorough": 10}     # few, long worker tasks: every worker pays for its own zygotes
-SELFTEST_RUNS = 3
+BATCH = {"quick": 6, "thorough": 10}     # few, long worker tasks: every worker pays for its own zygotes
+SELFTEST_RUNS = 2
 SHRINK_BUDGET_S = {"quick": 30.0, "thorough": 60.0}
 SHRINK_SKIP = ("params", "model")
 RULE = (
-    "quick: each case = a cohort of 8 different zoo models out of 39 (all judged; 40 cohorts = 320 model/seed pairs, every model >= 3 "
+    "quick: each case = a cohort of 8 different zoo models out of 39 (all judged; 36 cohorts = 288 model/seed pairs, every model >= 3 "
     "seeds), two interpreters per cohort + sampled literal subprocesses; thorough: each case = one of 34 zoo models (sources->servers, all queue policies incl. RED/CoDel/Balking, lossy/jittered Network, "
     "Raft, Paxos, Multi-/Flexible-Paxos, leader-election strategies, SWIM, LSM+WAL, BTree, CachedStore x 10 eviction "
     "configurations, SoftTTL, MultiTier, sharded/replicated store, primary-backup, chain, multi-leader, CRDTStore gossip, "
